@@ -138,3 +138,41 @@ pub fn gzip(b: &[u8]) -> Vec<u8> {
     e.write_all(b).unwrap();
     e.finish().unwrap()
 }
+
+// ---------------------------------------------------------------- stdout / stderr capture
+// fd 1 and fd 2 of the harness are redirected to two files; results go to a duplicate of the real stdout.
+pub fn capture_files() -> &'static (PathBuf, PathBuf) {
+    static R: OnceLock<(PathBuf, PathBuf)> = OnceLock::new();
+    R.get_or_init(|| (scratch_root().join("cap.err"), scratch_root().join("cap.out")))
+}
+/// Redirects fd 1 and fd 2; returns a File for the real stdout.
+pub fn redirect_std() -> std::fs::File {
+    use std::os::unix::io::{AsRawFd, FromRawFd};
+    let (e, o) = capture_files();
+    let real = unsafe { libc::dup(1) };
+    let fe = std::fs::OpenOptions::new().create(true).append(true).open(e).unwrap();
+    let fo = std::fs::OpenOptions::new().create(true).append(true).open(o).unwrap();
+    unsafe {
+        libc::dup2(fe.as_raw_fd(), 2);
+        libc::dup2(fo.as_raw_fd(), 1);
+    }
+    std::mem::forget(fe);
+    std::mem::forget(fo);
+    unsafe { std::fs::File::from_raw_fd(real) }
+}
+pub fn capture_reset() {
+    use std::io::Write;
+    let _ = std::io::stdout().flush();
+    let _ = std::io::stderr().flush();
+    let (e, o) = capture_files();
+    let _ = std::fs::OpenOptions::new().write(true).open(e).map(|f| f.set_len(0));
+    let _ = std::fs::OpenOptions::new().write(true).open(o).map(|f| f.set_len(0));
+}
+/// (stderr bytes, stdout bytes) since the last reset
+pub fn capture_read() -> (Vec<u8>, Vec<u8>) {
+    use std::io::Write;
+    let _ = std::io::stdout().flush();
+    let _ = std::io::stderr().flush();
+    let (e, o) = capture_files();
+    (std::fs::read(e).unwrap_or_default(), std::fs::read(o).unwrap_or_default())
+}
